@@ -44,6 +44,144 @@ def verdict (impl model : String) (h : Option String) (tag : String) : String :=
   let hs := if impl.startsWith "panic:" then "H0:panic" else match h with | none => "H1" | some cl => s!"H0:{cl}"
   if impl = model then s!"EQ {hs} {tag}" else s!"NE {hs} {model} {tag}"
 
+/-- `pix.gfx type W H tw th data | A B C P` -/
+def gfxStep (it : List String) (impl t W H tw th data : String) : Option String := do
+  let t ← t.toNat?; let W ← W.toNat?; let H ← H.toNat?; let tw ← tw.toNat?; let th ← th.toNat?
+  let data ← unhex data
+  let fmt ← fmtOf t
+  let d := toBV data
+  let A := match fmt with
+    | .mono => "none"
+    | .rgb => imgTok? (imgFromRGBBytes W H d)
+    | .gray => imgTok? (imgFromGrayBytes W H d)
+  let B := imgTok? (rwpImgToImage fmt W H d W H)
+  let C := imgTok? (rwpImgToImage fmt W H d tw th)
+  let P := match gfxToPngImage fmt W H d with
+    | none => "panic"
+    | some i => (match pngCodec i with | some i => imgTok i | none => "nopng")
+  let hh := match it with
+    | [a, b, c, p] => (match parseObs b, parseObs c with
+      | some b, some c =>
+        let ao := if a = "none" then some none else (parseObs a).map some
+        let po := if p = "nopng" then some none else (parseObs p).map some
+        (match ao, po with
+         | some ao, some po =>
+           Spec.Pix.checkGfx t W H data.size (byteAt data) tw th { direct := ao, rwp := b, centred := c, png := po }
+         | _, _ => some "parse")
+      | _, _ => some "parse")
+    | _ => some "parse"
+  let need := match fmt with | .mono => (W + 7) / 8 * H | .rgb => 2 * W * H | .gray => (W * H + 1) / 2
+  let lt := if data.size < need then "short" else if data.size = need then "exact" else "long"
+  pure (verdict impl s!"{A} {B} {C} {P}" hh s!"B:gfx{t}{lt}")
+
+/-! ## `pix.obj`: ONE mono image object used more than once
+
+`pix.obj op…`: a fresh (zero-value) object, then the calls in the order given; one output token per call:
+`P:code` SetOLEDPixelColor, `K:code` SetOLEDBckgColor                          → `pixel16:bckg16` (the exported colour fields)
+`N:w:h` NewImage, `B:w:h:hex` CreateFromBytes, `F:x:y:w:h:c` FillRect,
+`I:w:h:inv:hex` CreateFromImage(ConvertToImage(inv) of a fresh w×h image with these bits),
+`J:w:h:rgba` CreateFromImage(an RGBA image), `T:inv` CreateFromImage(own ConvertToImage(inv))   → `w:h:bytes`
+`E` GetImgSliceRGB + GetImgSliceGray                                          → `pixel16:bckg16:w:h:bytes:rgb:gray`
+The Spec clauses are applied call by call to what the object shows at that moment: a colour setter stores the documented
+colour; an export uses the colours the object's fields show **when the export is made** and the bitmap it holds then; an
+image-object round trip reproduces the visible pixels whatever the destination held before. -/
+
+def canvTok (c : Canvas) : String := s!"{c.geo.W}:{c.geo.H}:{hexBV c.bytes}"
+def hexOpt : Option (Array Byte) → String
+  | some a => hexBV a
+  | none => "panic"
+
+/-- one token of a `pix.obj` record → the call it denotes (`Model/Pix.lean` `ObjCall`) -/
+def parseObjCall (tok : String) : Option ObjCall :=
+  match tok.splitOn ":" with
+  | ["P", code] => do pure (.pixelColor (← code.toNat?))
+  | ["K", code] => do pure (.bckgColor (← code.toNat?))
+  | ["N", w, h] => do pure (.newImage (← w.toNat?) (← h.toNat?))
+  | ["B", w, h, bits] => do pure (.fromBytes (← w.toNat?) (← h.toNat?) (toBV (← unhex bits)))
+  | ["F", x, y, w, h, c] => do pure (.fillRect (← parseInt x) (← parseInt y) (← parseInt w) (← parseInt h) (← parseBool c))
+  | ["I", w, h, inv, bits] => do pure (.fromMono (← w.toNat?) (← h.toNat?) (← parseBool inv) (toBV (← unhex bits)))
+  | ["J", w, h, px] => do
+    let w ← w.toNat?; let h ← h.toNat?; let px ← unhex px
+    pure (.fromImg { w := w, h := h, px := Array.ofFn (n := w * h) (fun i =>
+      (byteAt px (4 * i.val), byteAt px (4 * i.val + 1), byteAt px (4 * i.val + 2), byteAt px (4 * i.val + 3))) })
+  | ["T", inv] => do pure (.selfRoundtrip (← parseBool inv))
+  | ["E"] => pure .exports
+  | _ => none
+
+/-- the token the harness prints after a call -/
+def objOut (o : Obj) : ObjCall → String
+  | .pixelColor _ => s!"{o.pcol}:{o.bcol}"
+  | .bckgColor _ => s!"{o.pcol}:{o.bcol}"
+  | .exports => s!"{o.pcol}:{o.bcol}:{canvTok o.c}:{hexOpt (sliceRGB o.c o.pcol o.bcol)}:{hexOpt (sliceGray o.c o.pcol o.bcol)}"
+  | _ => canvTok o.c
+
+def objRun (o : Obj) : List String → Option (List String)
+  | [] => some []
+  | tok :: rest => do
+    let call ← parseObjCall tok
+    let o' ← applyObj o call
+    let os ← objRun o' rest
+    pure (objOut o' call :: os)
+
+/-- an observed bitmap `w:h:bytes` -/
+structure ObsCanv where
+  w : Nat := 0
+  h : Nat := 0
+  bytes : Array UInt8 := #[]
+
+def ObsCanv.bit (o : ObsCanv) : Nat → Nat → Bool := bitAt ((o.w + 7) / 8) o.bytes
+
+def parseCanv (w h b : String) : Option ObsCanv := do
+  pure { w := ← w.toNat?, h := ← h.toNat?, bytes := ← unhex b }
+
+/-- the Spec clauses call by call, on the implementation's own outputs; `prev` = the bitmap the object showed last -/
+def objSpec (prev : ObsCanv) (k : Nat) : List String → List String → Option String
+  | op :: ops, ob :: obs =>
+    let fail := fun (cl : String) => some s!"{cl}@op{k}"
+    match op.splitOn ":", ob.splitOn ":" with
+    | ["P", code], [p, _] =>
+      (match code.toNat?, p.toNat? with
+       | some code, some p => (match Spec.Pix.checkColor code p with | none => objSpec prev (k + 1) ops obs | some e => fail e)
+       | _, _ => some "parse")
+    | ["K", code], [_, b] =>
+      (match code.toNat?, b.toNat? with
+       | some code, some b => (match Spec.Pix.checkColor code b with | none => objSpec prev (k + 1) ops obs | some e => fail e)
+       | _, _ => some "parse")
+    | ["I", w, h, inv, bits], [w2, h2, b2] =>
+      (match w.toNat?, h.toNat?, parseBool inv, unhex bits, parseCanv w2 h2 b2 with
+       | some w, some h, some inv, some bits, some o =>
+         (match Spec.Pix.checkRoundtrip w h inv (bitAt ((w + 7) / 8) bits) o.w o.h o.bit with
+          | none => objSpec o (k + 1) ops obs
+          | some e => fail e)
+       | _, _, _, _, _ => some "parse")
+    | ["T", inv], [w2, h2, b2] =>
+      (match parseBool inv, parseCanv w2 h2 b2 with
+       | some inv, some o =>
+         (match Spec.Pix.checkRoundtrip prev.w prev.h inv prev.bit o.w o.h o.bit with
+          | none => objSpec o (k + 1) ops obs
+          | some e => fail e)
+       | _, _ => some "parse")
+    | ["E"], [p, b, w, h, bytes, rgb, gray] =>
+      (match p.toNat?, b.toNat?, parseCanv w h bytes, unhex rgb, unhex gray with
+       | some p, some b, some o, some rgb, some gray =>
+         (match Spec.Pix.checkExport o.w o.h o.bit p b rgb.size (byteAt rgb) gray.size (byteAt gray) with
+          | none => objSpec o (k + 1) ops obs
+          | some e => fail e)
+       | _, _, _, _, _ => some "parse")
+    | _, [w, h, bytes] =>
+      (match parseCanv w h bytes with
+       | some o => objSpec o (k + 1) ops obs
+       | none => some "parse")
+    | _, _ => some "parse"
+  | [], [] => none
+  | _, _ => some "parse"
+
+def objStep (it : List String) (impl : String) (ops : List String) : Option String := do
+  let model := match objRun {} ops with
+    | some os => " ".intercalate os
+    | none => "panic"
+  pure (verdict impl model (objSpec {} 0 ops it) s!"B:obj")
+
 def step (cmd : String) (args : List String) (impl : String) : String :=
   let it := impl.splitOn " "
   let r : Option String :=
@@ -96,34 +234,13 @@ def step (cmd : String) (args : List String) (impl : String) : String :=
         | some b => s!"{b.geo.W} {b.geo.H} {hexBV b.bytes}"
         | none => "panic"
       pure (verdict impl model none "B:fromimg")
-    | "pix.gfx", [t, W, H, tw, th, data] => do
-      let t ← t.toNat?; let W ← W.toNat?; let H ← H.toNat?; let tw ← tw.toNat?; let th ← th.toNat?
-      let data ← unhex data
-      let fmt ← fmtOf t
-      let d := toBV data
-      let A := match fmt with
-        | .mono => "none"
-        | .rgb => imgTok? (imgFromRGBBytes W H d)
-        | .gray => imgTok? (imgFromGrayBytes W H d)
-      let B := imgTok? (rwpImgToImage fmt W H d W H)
-      let C := imgTok? (rwpImgToImage fmt W H d tw th)
-      let P := match gfxToPngImage fmt W H d with
-        | none => "panic"
-        | some i => (match pngCodec i with | some i => imgTok i | none => "nopng")
-      let hh := match it with
-        | [a, b, c, p] => (match parseObs b, parseObs c with
-          | some b, some c =>
-            let ao := if a = "none" then some none else (parseObs a).map some
-            let po := if p = "nopng" then some none else (parseObs p).map some
-            (match ao, po with
-             | some ao, some po =>
-               Spec.Pix.checkGfx t W H data.size (byteAt data) tw th { direct := ao, rwp := b, centred := c, png := po }
-             | _, _ => some "parse")
-          | _, _ => some "parse")
-        | _ => some "parse"
-      let need := match fmt with | .mono => (W + 7) / 8 * H | .rgb => 2 * W * H | .gray => (W * H + 1) / 2
-      let lt := if data.size < need then "short" else if data.size = need then "exact" else "long"
-      pure (verdict impl s!"{A} {B} {C} {P}" hh s!"B:gfx{t}{lt}")
+    | "pix.gfx", [t, W, H, tw, th, data] => gfxStep it impl t W H tw th data
+    -- the placement fields `XYoffset`, `X`, `Y` of the message say where a panel puts the image on its display; the
+    -- conversions do not read them (same model, same Spec clauses as `pix.gfx`)
+    | "pix.gfxo", [t, W, H, tw, th, xyo, X, Y, data] => do
+      let _ ← parseBool xyo; let _ ← X.toNat?; let _ ← Y.toNat?
+      gfxStep it impl t W H tw th data
+    | "pix.obj", ops => objStep it impl ops
     | _, _ => none
   r.getD "ERR bad-record"
 
